@@ -212,7 +212,7 @@ pub fn draw_layout(rng: &mut Rng, big: bool) -> Layout {
             }
         }
     }
-    Layout {
+    let mut l = Layout {
         order,
         gaps,
         ic: draw_ic(rng, big),
@@ -225,7 +225,15 @@ pub fn draw_layout(rng: &mut Rng, big: bool) -> Layout {
         loose_ptr: rng.chance(25),
         kind_coincidence: rng.chance(30),
         strength: if rng.chance(35) { 1 + rng.below(6) as u8 } else { 0 },
+        unknown_counters: 0,
+    };
+    // one archive in eight leaves one or more of the header's three counters at 0 ("unknown");
+    // decided by the layout seed so that no other draw of the generator moves
+    let m = crate::rng::mix(l.seed, 0xC0_0417);
+    if m % 8 == 0 {
+        l.unknown_counters = 1 + ((m >> 8) % 7) as u8;
     }
+    l
 }
 
 pub fn materialise_foreign(f: &ForeignSpec) -> Result<Img, String> {
@@ -306,7 +314,7 @@ pub fn materialise_foreign(f: &ForeignSpec) -> Result<Img, String> {
     let distinct: std::collections::HashSet<(u64, u32)> = tile_entries.iter().map(|e| (e.offset, e.length)).collect();
     let fa = spec::write_foreign(&tile_entries, &data, &meta_plain, &tmpl, &f.layout, distinct.len() as u64, u8::from(f.placement == 0))?;
     // the generator's own output must be spec-valid (harness self-check, not a verdict)
-    let v = spec::validate(&fa.image).map_err(|e| format!("foreign writer produced an invalid archive: {e}"))?;
+    let v = spec::validate_opts(&fa.image, f.layout.unknown_counters != 0).map_err(|e| format!("foreign writer produced an invalid archive: {e}"))?;
     let addr = if f.layout.kind_coincidence { v.walk.tiles.clone() } else { addr };
     Ok(Img { image: fa.image, header: fa.header, expected, addr, meta: meta_map, walk: v.walk, foreign: true })
 }
@@ -414,6 +422,9 @@ pub fn shrink_foreign(f: &ForeignSpec) -> Vec<ForeignSpec> {
     }
     if l.loose_ptr {
         out.push(ForeignSpec { layout: Layout { loose_ptr: false, ..l.clone() }, ..f.clone() });
+    }
+    if l.unknown_counters != 0 {
+        out.push(ForeignSpec { layout: Layout { unknown_counters: 0, ..l.clone() }, ..f.clone() });
     }
     if l.kind_coincidence {
         out.push(ForeignSpec { layout: Layout { kind_coincidence: false, ..l.clone() }, ..f.clone() });
